@@ -1,6 +1,7 @@
 package main
 
 import (
+	"bytes"
 	"fmt"
 	"math/rand"
 	"sync"
@@ -84,12 +85,26 @@ func runC13(c *Check, rng *rand.Rand) {
 		"non-termination is restated as 'the same request is seen more than 8 times by the nodes'; the harness then stabilises the slot so the run can go on",
 		"redirect targets are nodes the proxy knows (part of its current topology)",
 	}
-	env, err := NewEnv(EnvOpt{Masters: 6})
+	c13config(c, rng, 1)
+	c13config(c, rng, 2)
+	c.MinEvals = 30
+}
+
+func c13config(c *Check, rng *rand.Rand, serverConns int) {
+	env, err := NewEnv(EnvOpt{Masters: 6, Cfg: ProxyCfg{ServerConnections: serverConns}})
 	must(err, "start env")
 	defer env.Close()
 	script := NewScript()
 	w := &c13world{redir: map[int]*slotRedir{}, bounces: map[string]int{}, loops: map[string]bool{}, script: script}
 	env.Cl.SetHandler(w.handler)
+	if serverConns > 1 {
+		// several connections per node: only the ASK / MOVED episodes (the order-sensitive
+		// pipeline oracle assumes one connection per node)
+		for i := 0; i < c.Pick(30, 300) && env.P.Alive(); i++ {
+			c13episode(c, rng, env, w, []string{"ask", "moved", "moved-then-ask"}[i%3], false, 1, 0)
+		}
+		return
+	}
 	kinds := []string{"moved", "ask", "moved-then-ask"}
 	episodes := 0
 	for plen := 1; plen <= c.Pick(5, 8); plen++ {
@@ -118,7 +133,80 @@ func runC13(c *Check, rng *rand.Rand) {
 		}
 		c13concurrent(c, rng, env, w)
 	}
-	c.MinEvals = 30
+	c13lateRedirect(c, rng, env, w)
+}
+
+// c13lateRedirect: a split request is completed by one fragment's error before its
+// sibling answers with a redirect; the redirect belongs to a request that is already
+// answered and must simply be dropped.
+func c13lateRedirect(c *Check, rng *rand.Rand, env *Env, w *c13world) {
+	for i := 0; i < c.Pick(12, 200) && env.P.Alive(); i++ {
+		kind := []string{"mset", "del", "mget"}[i%3]
+		// slow request, erroring fragment and redirected fragment on three different nodes;
+		// the redirect names a fourth one
+		slowSlot := rng.Intn(16384)
+		slowNode := env.T.Owner(slowSlot).Node
+		r := c07genNodes(rng, env, kind, 2, 2, slowNode)
+		r.override = map[int][]byte{}
+		r.override[r.slots[0]] = ErrReply("OOM command not allowed when used memory > 'maxmemory'.")
+		var target *Node
+		for _, tn := range env.T.Nodes {
+			if tn.Node != slowNode && tn.Node != env.T.Owner(r.slots[0]).Node && tn.Node != env.T.Owner(r.slots[1]).Node {
+				target = tn.Node
+			}
+		}
+		kw := []string{"MOVED", "ASK"}[i%2]
+		r.override[r.slots[1]] = ErrReply(fmt.Sprintf("%s %d %s", kw, r.slots[1], target.Addr))
+		gates := r.install(w.script, true)
+		cl, err := env.Dial()
+		must(err, "dial")
+		// a slow request in front keeps the answered request queued for a while
+		slowKey := Key(slowSlot, newToken("sl"))
+		sg := NewGate()
+		w.script.Plan(slowKey).Gate = sg
+		cl.Send(append(Req("GET", slowKey), r.raw...))
+		env.Barrier()
+		gates[0].Open()
+		env.Barrier()
+		if i%2 == 0 {
+			sg.Open() // flushed (and its message recycled) before the redirect arrives
+			cl.WaitReplies(2, 3*time.Second)
+			env.Barrier()
+		}
+		gates[1].Open()
+		env.Barrier()
+		sg.Open()
+		fk := Key(rng.Intn(16384), newToken("fu"))
+		cl.Send(Req("GET", fk))
+		ok := cl.WaitReplies(3, 4*time.Second)
+		s := cl.Snapshot()
+		wit := map[string]interface{}{"request": Q(r.raw), "redirect": kw, "received": valStrings(s.Replies)}
+		c.Eval(1)
+		c.Distinct(fmt.Sprintf("late-redirect/%s/%s/%d", kind, kw, i%2))
+		switch {
+		case !env.P.Alive():
+			wit["stderr"] = env.P.OutputTail(2000)
+			c.Violate(Violation{Class: "proxy-died", Shape: "redirect-for-an-answered-request", Detail: "a " + kw + " reply arrived for a fragment whose request had already been answered: " + env.P.PanicLine(), Witness: wit})
+			return
+		case !ok:
+			c.Violate(Violation{Class: "redirect/missing-replies", Shape: "redirect-for-an-answered-request", Detail: fmt.Sprintf("%d of 3 replies", len(s.Replies)), Witness: wit})
+		case s.Replies[1].Val.Kind != '-' || !bytes.Equal(s.Replies[2].Val.Raw, BulkReply([]byte("v:"+fk))) || !bytes.Equal(s.Replies[0].Val.Raw, BulkReply([]byte("v:"+slowKey))):
+			c.Violate(Violation{Class: "redirect/wrong-reply-at-position", Shape: "redirect-for-an-answered-request", Detail: "replies around a late redirect are wrong", Witness: wit})
+		default:
+			c.Count("redirected_requests_checked", 1)
+		}
+		// the dropped fragment must not have been re-sent
+		for _, bc := range target.Conns() {
+			for _, q := range bc.Requests() {
+				if string(FirstKey(q)) == string(r.keys[r.groups[r.slots[1]][0]]) {
+					c.Violate(Violation{Class: "redirect-followed-for-an-answered-request", Shape: "redirect-for-an-answered-request", Detail: "the fragment of an already answered request was re-sent to " + target.Addr, Witness: wit})
+				}
+			}
+		}
+		cl.Close()
+		r.forget(w.script)
+		w.script.Forget(slowKey)
+	}
 }
 
 func c13concurrent(c *Check, rng *rand.Rand, env *Env, w *c13world) {
